@@ -82,13 +82,13 @@ def main():
     results = meta.get("results", {})
     for c in checks:
         t0 = time.time()
-        rc, o = run("./check %s --tier %s --seed %s" % (c, a.tier, a.seed), cwd=VERIF, env={"VERIF_REPO": work, "VERIF_OUT": "/tmp/seedchk_out"})
+        rc, o = run("./check %s --tier %s --seed %s" % (c, a.tier, a.seed), cwd=VERIF, env={"VERIF_REPO": work, "VERIF_OUT": "/tmp/seedchk_out_%s" % a.name})
         verdict = {0: "MISSED", 1: "caught", 2: "harness-error"}.get(rc, "rc=%d" % rc)
         first = [l for l in o.splitlines() if l.startswith("violation[")]
         results["%s:%s" % (c, a.tier)] = {"verdict": verdict, "wall_s": round(time.time() - t0, 1), "first_violation": first[0][:300] if first else "", "seed": a.seed}
         print("%s %s tier=%s -> %s (%.0fs) %s" % (a.name, c, a.tier, verdict, time.time() - t0, first[0][:200] if first else ""))
     shutil.rmtree(work, ignore_errors=True)
-    shutil.rmtree("/tmp/seedchk_out", ignore_errors=True)
+    shutil.rmtree("/tmp/seedchk_out_%s" % a.name, ignore_errors=True)
     os.makedirs(dst, exist_ok=True)
     if not a.rerun:
         shutil.copy(os.path.join(src, "patch.diff"), os.path.join(dst, "patch.diff"))
